@@ -96,6 +96,7 @@ def bulk_task(prop, alphabet, prefix, rest, track):
             if flag[:1] != '1' and not line.startswith('PANIC'):
                 st.violate(Violation('C08', 'parse', 'reparse', {'kind': 'reparse', 'text': text},
                                      'parse(concat(raw_i)) == parse(text) up to locations', line))
+    st.sample({'text': text, 'parsed_as': exp})
     end = sh.recv()
     if end != 'END %d' % n:
         raise RuntimeError('bulk out of sync: %r vs %d' % (end, n))
@@ -471,6 +472,8 @@ def roundtrip_task(cmdlists, max_fill):
                 continue
             texts.append(t)
             meta.append(want)
+    if texts:
+        st.sample({'rendering': texts[len(texts) // 2], 'commands': [list(w) for w in meta[len(texts) // 2]]})
     resps = sh.batch([('parse', hx(t)) for t in texts])
     for t, want, line in zip(texts, meta, resps):
         st.inc('renderings')
